@@ -43,6 +43,93 @@ inductive MembersBound (objs : List Obj) : List PathElem → List Path → Prop
   | cons {r rs c cs} : c.getLast? = some r.name → (findObject objs c).isSome →
       MembersBound objs rs cs → MembersBound objs (r :: rs) (c :: cs)
 
+/-! ### Members after a dot in a field path (`a.b.c`)
+
+Written from the language reference: `a.b` names the field (or parameter) `b` of the structure
+that is the *type of the field `a`*; a virtual field that merely renames another field
+(`let a = x.y`) stands for that field; nothing else has members.  The three judgements are the
+three cases of one inductive family (so that rule induction is plain `induction`):
+
+* `phys o p`   — following renaming virtual fields from the definition `o` ends in the physical
+                 field `p`;
+* `mem o rs cs` — the path elements `rs`, looked up one after the other starting from the
+                 definition `o`, are bound to the canonical names `cs`;
+* `path i cs`  — the `i`-th field reference of the module is bound, element by element, to `cs`. -/
+
+inductive MemberJudgement
+  | phys (o p : Obj)
+  | mem (o : Obj) (rs : List PathElem) (cs : List Path)
+  | path (i : Nat) (cs : List Path)
+
+inductive MemberRule (E : FEnv) : MemberJudgement → Prop
+  | physAtomic {o t} : o.kind = .field (.atomic t) → MemberRule E (.phys o o)
+  | physArray {o} : o.kind = .field .array → MemberRule E (.phys o o)
+  /-- `let o = <field reference i>`: what the last element of that reference is bound to -/
+  | physAlias {o i cs c o' p} : o.kind = .field (.virtAlias i) → MemberRule E (.path i cs) →
+      cs.getLast? = some c → findObject E.objs c = some o' → MemberRule E (.phys o' p) →
+      MemberRule E (.phys o p)
+  | memNil {o} : MemberRule E (.mem o [] [])
+  /-- `r` is looked up in the type `tc` of the physical field behind `o` — and nowhere else -/
+  | memCons {o p t tc r o' rest cs} : MemberRule E (.phys o p) → p.kind = .field (.atomic t) →
+      E.typeCanon t = some tc → findObject E.objs (tc ++ [r.name]) = some o' →
+      MemberRule E (.mem o' rest cs) → MemberRule E (.mem o (r :: rest) ((tc ++ [r.name]) :: cs))
+  | pathSingle {i fr h p} : E.frefs i = some fr → E.headCanon i = some h → fr.path = [p] →
+      MemberRule E (.path i [h])
+  | pathMulti {i fr h p0 r rest o cs} : E.frefs i = some fr → E.headCanon i = some h →
+      fr.path = p0 :: r :: rest → findObject E.objs h = some o →
+      MemberRule E (.mem o (r :: rest) cs) → MemberRule E (.path i (h :: cs))
+
+/-- field reference `i` is bound to `cs` (head first) -/
+def PathBound (E : FEnv) (i : Nat) (cs : List Path) : Prop := MemberRule E (.path i cs)
+
+/-! The ways a field path can be wrong (language reference: only structures have members; an
+array has none; the member must exist in the structure), with the error each one is answered
+with.  `prev` is the path element that named the definition `o` (errors about `o` are located
+there). -/
+
+inductive MemberFailJudgement
+  | phys (o : Obj) (prev : PathElem) (e : Err)
+  | mem (o : Obj) (prev : PathElem) (rs : List PathElem) (e : Err)
+  | path (i : Nat) (e : Err)
+
+inductive MemberFails (E : FEnv) : MemberFailJudgement → Prop
+  /-- a parameter, a module, a type, an enum value has no members -/
+  | physNonField {o prev} : (∀ sh, o.kind ≠ .field sh) →
+      MemberFails E (.phys o prev (.noncomposite prev.name prev.rloc))
+  /-- a virtual field that is not a plain renaming has no members -/
+  | physOther {o prev} : o.kind = .field .virtOther →
+      MemberFails E (.phys o prev (.noncomposite prev.name prev.rloc))
+  | physAlias {o i cs c o' prev e} : o.kind = .field (.virtAlias i) → MemberRule E (.path i cs) →
+      cs.getLast? = some c → findObject E.objs c = some o' → MemberFails E (.phys o' prev e) →
+      MemberFails E (.phys o prev e)
+  | memPhys {o prev r rest e} : MemberFails E (.phys o prev e) →
+      MemberFails E (.mem o prev (r :: rest) e)
+  | memArray {o p prev r rest} : MemberRule E (.phys o p) → p.kind = .field .array →
+      MemberFails E (.mem o prev (r :: rest) (.arrayMember prev.name prev.rloc))
+  | memMissing {o p t tc prev r rest} : MemberRule E (.phys o p) → p.kind = .field (.atomic t) →
+      E.typeCanon t = some tc → findObject E.objs (tc ++ [r.name]) = none →
+      MemberFails E (.mem o prev (r :: rest) (.missing r.name r.nloc))
+  | memLater {o p t tc prev r rest o' e} : MemberRule E (.phys o p) →
+      p.kind = .field (.atomic t) → E.typeCanon t = some tc →
+      findObject E.objs (tc ++ [r.name]) = some o' → MemberFails E (.mem o' r rest e) →
+      MemberFails E (.mem o prev (r :: rest) e)
+  | pathNoHead {i fr h p0 r rest} : E.frefs i = some fr → E.headCanon i = some h →
+      fr.path = p0 :: r :: rest → findObject E.objs h = none →
+      MemberFails E (.path i (.noncomposite p0.name p0.rloc))
+  | pathMem {i fr h p0 r rest o e} : E.frefs i = some fr → E.headCanon i = some h →
+      fr.path = p0 :: r :: rest → findObject E.objs h = some o →
+      MemberFails E (.mem o p0 (r :: rest) e) → MemberFails E (.path i e)
+
+/-- field reference `i` is rejected with error `e` -/
+def PathRejected (E : FEnv) (i : Nat) (e : Err) : Prop := MemberFails E (.path i e)
+
+/-- What `_set_visible_scopes_for_module` must be given for the visible scopes to be pairwise
+distinct: the anonymously imported files (in practice: just the prelude) are distinct files and
+none of them is the module itself.  (A condition on the *input* — the import list —; the
+harness counts the references whose context violates it: only the prelude's own contexts do,
+the prelude imports itself, and the prelude contains no reference that needs resolving.) -/
+def Ctx.WellFormed (c : Ctx) : Prop := c.anon.Nodup ∧ c.module ∉ c.anon
+
 /-- the head scope the scoping rules designate for a reference -/
 def HeadScope (T : Table) (r : Ref) (n : String) (s : Path) : Prop :=
   if r.isLocal then Innermost T r.ctx.cur r.ctx.visible n s
